@@ -88,3 +88,44 @@ Example acct_world_places :
   | None => []
   end ≡ₚ [(1, 6); (2, 7); (3, 3)]%positive.
 Proof. vm_compute. reflexivity. Qed.
+
+(* ---------- base case (second audit N6): the constructor of initial states establishes the
+   accounting invariant, for every cluster spec whose requests are non-negative ---------- *)
+
+Lemma mk_req_nonneg c m g : 0 <= c -> 0 <= m -> 0 <= g -> nonneg (mk_req c m g).
+Proof.
+  intros Hc Hm Hg d. unfold mk_req, grid. destruct d as [| |k]; simpl; [lia|lia|].
+  unfold sget, scm. simpl. case_bool_decide.
+  - destruct (<[4%positive := g * 1000 * 16]> {[1%positive := 16]} !! k) as [v|] eqn:E; simpl; [|lia].
+    apply lookup_insert_Some in E as [[_ <-]|[_ E]]; [lia|]. apply lookup_singleton_Some in E as [_ <-]. lia.
+  - destruct (({[1%positive := 16]} : gmap positive Z) !! k) as [v|] eqn:E; simpl; [|lia].
+    apply lookup_singleton_Some in E as [_ <-]. lia.
+Qed.
+
+Lemma empty_node_acct ns : node_acct (empty_node ns).
+Proof.
+  unfold empty_node. split; [|split].
+  - simpl. intros Hh. rewrite Hh. unfold mk_alloc. simpl. discriminate.
+  - intros k c Hl. simpl in Hl. rewrite lookup_empty in Hl. discriminate.
+  - intros Hh d. simpl in *. unfold csum. rewrite map_to_list_empty. simpl.
+    assert (amt empty_res d = 0) by (destruct d; reflexivity). repeat split; lia.
+Qed.
+
+Lemma fold_add_acct eps (cond : task -> bool) l : forall acc,
+  node_acct acc -> (forall t, t ∈ l -> nonneg (t_req t)) ->
+  node_acct (fold_left (fun acc t => if cond t then match node_add eps acc t with inl (acc', _) => acc' | inr _ => acc end else acc) l acc).
+Proof.
+  induction l as [|t l IH]; intros acc Ha Hl; [exact Ha|]. simpl. apply IH; [|intros u Hu; apply Hl; right; exact Hu].
+  destruct (cond t); [|exact Ha]. destruct (node_add eps acc t) as [[acc' t']|e] eqn:E; [|exact Ha].
+  eapply node_add_acct; [exact Ha|apply Hl; left|exact E].
+Qed.
+
+Theorem build_nodes_acct eps ns js ts :
+  (forall t, t ∈ ts -> 0 <= ts_cpu t /\ 0 <= ts_mem t /\ 0 <= ts_gpu t) ->
+  nodes_acct (nodes (build eps ns js ts)).
+Proof.
+  intros Hts i n Hl. unfold build in Hl. simpl in Hl.
+  apply elem_of_list_to_map_2 in Hl. apply elem_of_list_fmap in Hl as (spec & Heq & _). inversion Heq; subst. clear Heq.
+  apply (fold_add_acct eps (fun t => bool_decide (t_node t = Some (ns_id spec)) && on_node_status (t_status t))); [apply empty_node_acct|].
+  intros t Ht. apply elem_of_list_fmap in Ht as (tsp & -> & Hin). simpl. destruct (Hts tsp Hin) as (H1 & H2 & H3). apply mk_req_nonneg; assumption.
+Qed.
